@@ -17,7 +17,8 @@ c18_bid_range c18_q1_half c18_q1_bid c18_q1_valid c18_q2_arity c18_q2_bid c18_q2
 c18_sep_label_count c18_sep_none_used c18_sep_spans c18_sep_valid c18_exp_count c18_exp_missing c18_exp_valid
 c18_sim_conditioned c18_sim_clbits c18_mgo_empty c18_mgo_not_pauli c18_mgo_size c18_cog_phase
 c18_f7_interleaved_breaks_frame c18_f12_interleaved_breaks_frame c18_f13_interleaved_breaks_frame
-c18_facts_decompose_guards""".split()
+c18_facts_decompose_guards
+c18_skel_simulate c18_skel_reconstruct c18_skel_partition_problem""".split()
 
 ENTRY = dict(
         title="Malformed requests are refused with the documented error, never mis-computed",
@@ -25,7 +26,7 @@ ENTRY = dict(
         corr_files=["Corr/C18Corr.v"],
         theorems=_T,
         allowed_axioms=[],
-        facts=["value_error_sites", "c18_guards", "c18_sim_cond_guard_first"],
+        facts=["value_error_sites", "c18_guards", "c18_sim_cond_guard_first", "c18_skeletons"],
         harness="c18",
         level_text="Unbounded theorems about the executable model of the validation blocks of 29 functions (22 entry points): one implication "
                    "per documented error class, each for EVERY position of the offending element and arbitrary other input (all list "
@@ -38,6 +39,12 @@ ENTRY = dict(
                    "run with deep before/after snapshots of every argument.",
         level_note=STD_NOTE + "No axioms.",
         assumptions=[
+            "REGENERATED DECISION PROCEDURES (c18_skel_*): for partition_problem, reconstruct_expectation_values and "
+            "simulate_statevector_outcomes the guard-relevant control skeleton (nesting, order, branches, loops, calls of "
+            "separately modelled validators) is regenerated from the Python AST on every run and EXECUTED in Coq; the theorems "
+            "prove it equal to the hand-written api_* for all inputs. Hand-written there: only the meaning of each atomic test "
+            "(keyed by its source text) and of the collections loops range over, in terms of the input abstraction. The other "
+            "26 modelled functions are tied by the ordered guard-text lists (and the simulate position fact) only",
             "Model/Validation.v is a hand-written model of the VALIDATION blocks only (Proceeds = validation passed; what the function "
             "then computes is the business of C01..C17); tied to the source by the extracted ordered guard lists (c18_guards) and by "
             "the C18 correspondence",
